@@ -26,6 +26,7 @@
 
 #include <stdlib.h>
 #include <stdint.h>
+#include <limits.h>
 #include <stdbool.h>
 #include <string.h>
 #include <unistd.h>
@@ -684,7 +685,13 @@ ssize_t ZCK_PUBLIC_API zck_get_data_length(zckCtx *zck) {
 
 ssize_t ZCK_PUBLIC_API zck_get_length(zckCtx *zck) {
     VALIDATE_INT(zck);
-    return zck_get_header_length(zck) + zck_get_data_length(zck);
+    ssize_t header_length = zck_get_header_length(zck);
+    ssize_t data_length = zck_get_data_length(zck);
+    /* Report an error instead of overflowing the signed sum */
+    if(header_length < 0 || data_length < 0 ||
+       data_length > SSIZE_MAX - header_length)
+        return -1;
+    return header_length + data_length;
 }
 
 ssize_t ZCK_PUBLIC_API zck_get_flags(zckCtx *zck) {
